@@ -1,8 +1,8 @@
 import PPLV.Watchdog.ProofsClock8
 
 /-! Schedules at the granularity of public operations (`atomicSched`): every constructor and
-destructor runs to completion before time passes again.  With non-negative delays such runs are
-quiet, so the `Quiet` theorems apply to them unconditionally. -/
+destructor runs to completion before time passes again.  Such runs are quiet, so the
+`Quiet` theorems apply to them unconditionally. -/
 namespace PPLV.Watchdog
 
 theorem steps_add (b : Bool) (m n : Nat) (σ : St) : steps b (m + n) σ = steps b n (steps b m σ) := by
@@ -57,48 +57,38 @@ theorem tick_pc (b : Bool) (σ : St) (d : Int) :
     · split
       · exact ⟨rfl, rfl, fun h => by simp [h]⟩
       · refine ⟨(handler_pc b _).1, (handler_pc b _).2, fun h => ?_⟩
-        rw [(handler_dirty b _).1]; simp [h]
+        rw [handler_dirty b _]; simp [h]
 
 /-- the state between two public operations of a quiet run -/
 structure Rest (σ : St) : Prop where
   idle : σ.pc = .idle
   clean : σ.dirty = false
-  args : σ.badArg = false
   clock : Clock σ
 
-theorem steps_flags (b : Bool) (n : Nat) (σ : St) :
-    (steps b n σ).dirty = σ.dirty ∧ (steps b n σ).badArg = σ.badArg := by
+theorem steps_flags (b : Bool) (n : Nat) (σ : St) : (steps b n σ).dirty = σ.dirty := by
   induction n generalizing σ with
-  | zero => exact ⟨rfl, rfl⟩
-  | succ k ih =>
-    have h1 := ih (step b σ)
-    have h2 := step_flags b σ
-    exact ⟨h1.1.trans h2.1, h1.2.trans h2.2⟩
+  | zero => rfl
+  | succ k ih => exact (ih (step b σ)).trans (step_flags b σ)
 
-theorem rest_create {σ : St} (h : Rest σ) (id : Nat) (cs : Int) (hcs : 0 ≤ cs) :
+theorem rest_create {σ : St} (h : Rest σ) (id : Nat) (cs : Int) :
     Rest (steps false 4 (create σ id cs)) := by
   have hc := h.clock
   by_cases hg : σ.pc ≠ .idle ∨ id ∈ σ.used
   · have : create σ id cs = σ := by unfold create; simp [hg]
     rw [this, steps_idle false 4 σ h.idle]; exact h
   · have hf : id ∉ σ.used := fun hh => hg (Or.inr hh)
-    by_cases h0 : cs = 0
+    by_cases h0 : cs ≤ 0
     · have heq : create σ id cs = { σ with used := id :: σ.used, log := .rejected id cs :: σ.log } := by
         unfold create; simp [hg, h0]
       have hidle : (create σ id cs).pc = .idle := by rw [heq]; exact h.idle
       rw [steps_idle false 4 _ hidle, heq]
-      exact ⟨h.idle, h.clean, h.args,
+      exact ⟨h.idle, h.clean,
         hc.frame (Or.inl h.idle) hc.notCrit hc.noErr rfl rfl rfl rfl rfl rfl rfl
           ⟨[Event.rejected id cs], rfl, by intro e he; simp at he; subst he; exact neutral_simple.2.2.2.2.2.2.2.2 _ _⟩⟩
     · have hpos : 0 < cs := by omega
-      have hflags : ∀ n, (steps false n (create σ id cs)).dirty = false ∧
-          (steps false n (create σ id cs)).badArg = false := by
+      have hflags : ∀ n, (steps false n (create σ id cs)).dirty = false := by
         intro n
-        have h1 := steps_flags false n (create σ id cs)
-        have h2 : (create σ id cs).dirty = σ.dirty := (create_flags σ id cs).1
-        have h3 : (create σ id cs).badArg = false := by
-          unfold create; simp [hg, h0, h.args]; omega
-        exact ⟨by rw [h1.1, h2, h.clean], by rw [h1.2, h3]⟩
+        rw [steps_flags false n (create σ id cs), create_flags σ id cs, h.clean]
       cases hr : σ.running
       · have hp : σ.pending = [] := by
           cases hpd : σ.pending with
@@ -108,16 +98,16 @@ theorem rest_create {σ : St} (h : Rest σ) (id : Nat) (cs : Int) (hcs : 0 ≤ c
           rw [create_A_eq false σ id cs hpos h.idle hf hr hp]
         have hext := steps_extend false 3 1 (create σ id cs) hidle
         rw [show (4 : Nat) = 3 + 1 from rfl, hext]
-        exact ⟨hidle, (hflags 3).1, (hflags 3).2, clock_create_A hc id cs hpos h.idle hf hr⟩
+        exact ⟨hidle, hflags 3, clock_create_A hc id cs hpos h.idle hf hr⟩
       · cases hlt : (Time.ofCs cs).lt (getTimer σ)
         · have hidle : (steps false 3 (create σ id cs)).pc = .idle := by
             rw [create_B2_eq false σ id cs hpos h.idle hf hr hlt]
           have hext := steps_extend false 3 1 (create σ id cs) hidle
           rw [show (4 : Nat) = 3 + 1 from rfl, hext]
-          exact ⟨hidle, (hflags 3).1, (hflags 3).2, clock_create_B2 hc id cs hpos h.idle hf hr hlt⟩
+          exact ⟨hidle, hflags 3, clock_create_B2 hc id cs hpos h.idle hf hr hlt⟩
         · have hidle : (steps false 4 (create σ id cs)).pc = .idle := by
             rw [create_B1_eq false σ id cs hpos h.idle hf hr hlt]
-          exact ⟨hidle, (hflags 4).1, (hflags 4).2, clock_create_B1 hc id cs hpos h.idle hf hr hlt⟩
+          exact ⟨hidle, hflags 4, clock_create_B1 hc id cs hpos h.idle hf hr hlt⟩
 
 theorem rearm_ok {σ : St} (h : Clock σ) (e n : Ev) (rest : List Ev)
     (hp : σ.pending = e :: n :: rest) (hne : Time.ne false e.deadline n.deadline = true) :
@@ -146,12 +136,9 @@ theorem rearm_ok {σ : St} (h : Clock σ) (e n : Ev) (rest : List Ev)
 
 theorem rest_destroy {σ : St} (h : Rest σ) (id : Nat) : Rest (steps false 5 (destroy σ id)) := by
   have hc := h.clock
-  have hflags : ∀ n, (steps false n (destroy σ id)).dirty = false ∧
-      (steps false n (destroy σ id)).badArg = false := by
+  have hflags : ∀ n, (steps false n (destroy σ id)).dirty = false := by
     intro n
-    have h1 := steps_flags false n (destroy σ id)
-    have h2 := destroy_flags σ id
-    exact ⟨by rw [h1.1, h2.1, h.clean], by rw [h1.2, h2.2, h.args]⟩
+    rw [steps_flags false n (destroy σ id), destroy_flags σ id, h.clean]
   by_cases hg : σ.pc ≠ .idle ∨ id ∉ σ.live
   · have : destroy σ id = σ := by unfold destroy; simp [hg]
     rw [this, steps_idle false 5 σ h.idle]; exact h
@@ -160,9 +147,8 @@ theorem rest_destroy {σ : St} (h : Rest σ) (id : Nat) : Rest (steps false 5 (d
         unfold destroy; simp [hg, hexp]
       have hidle : (destroy σ id).pc = .idle := by rw [heq]; exact h.idle
       rw [steps_idle false 5 _ hidle]
-      refine ⟨hidle, ?_, ?_, ?_⟩
-      · rw [(destroy_flags σ id).1]; exact h.clean
-      · rw [(destroy_flags σ id).2]; exact h.args
+      refine ⟨hidle, ?_, ?_⟩
+      · rw [destroy_flags σ id]; exact h.clean
       · rw [heq]; exact hc.logDestroyed id rfl rfl rfl rfl rfl rfl rfl rfl rfl rfl rfl
     · have heq : destroy σ id = { σ with live := σ.live.erase id, pc := .d1 id } := by
         unfold destroy; simp [hg, hexp]
@@ -176,7 +162,7 @@ theorem rest_destroy {σ : St} (h : Rest σ) (id : Nat) : Rest (steps false 5 (d
         have hext := steps_extend false m (5 - m) (destroy σ id) hidle
         rw [show m + (5 - m) = 5 by omega] at hext
         rw [hext]
-        exact ⟨hidle, (hflags m).1, (hflags m).2, hcl⟩
+        exact ⟨hidle, hflags m, hcl⟩
       cases hp : (destroy σ id).pending with
       | nil =>
         exact fin 2 (by omega) (by rw [destroy_nil_eq false _ id hpc hp]) (clock_destroy_nil hc' id hpc hp)
@@ -204,32 +190,26 @@ namespace PPLV.Watchdog
 
 theorem rest_tick {σ : St} (h : Rest σ) (d : Int) : Rest (tick false σ d) := by
   obtain ⟨t1, t2, t3⟩ := tick_pc false σ d
-  exact ⟨t1.trans h.idle, (t3 h.clock.notCrit).trans h.clean,
-    ((tick_flags false σ d).2.1).trans h.args, clock_tick h.clock d⟩
+  exact ⟨t1.trans h.idle, (t3 h.clock.notCrit).trans h.clean, clock_tick h.clock d⟩
 
-theorem rest_init : Rest {} := ⟨rfl, rfl, rfl, clock_init⟩
+theorem rest_init : Rest {} := ⟨rfl, rfl, clock_init⟩
 
-/-- delays passed to constructors are non-negative -/
-def NonNegDelays (ops : List Step) : Prop := ∀ id cs, Step.create id cs ∈ ops → 0 ≤ cs
-
-theorem rest_atomic (ops : List Step) (hpos : NonNegDelays ops) :
+theorem rest_atomic (ops : List Step) :
     ∀ σ, Rest σ → Rest (runFrom false σ (atomicSched ops)) := by
   induction ops with
   | nil => intro σ h; exact h
   | cons op rest ih =>
     intro σ h
-    have hpos' : NonNegDelays rest := fun id cs hm => hpos id cs (List.mem_cons_of_mem _ hm)
     have : atomicSched (op :: rest) = op.atomic ++ atomicSched rest := by
       simp [atomicSched]
     rw [this, runFrom_append]
-    apply ih hpos'
+    apply ih
     cases op with
     | create id cs =>
-      have hcs := hpos id cs (by simp)
       have : runFrom false σ (Step.create id cs).atomic = steps false 4 (create σ id cs) := by
         show runFrom false (exec false σ (.create id cs)) (List.replicate 4 Step.step) = _
         rw [runFrom_steps]; rfl
-      rw [this]; exact rest_create h id cs hcs
+      rw [this]; exact rest_create h id cs
     | destroy id =>
       have : runFrom false σ (Step.destroy id).atomic = steps false 5 (destroy σ id) := by
         show runFrom false (exec false σ (.destroy id)) (List.replicate 5 Step.step) = _
